@@ -538,6 +538,7 @@ class Check:
         return q if self.tier == 'quick' else t
 
     def run(self, label, exe, cases, **kw):
+        kw.setdefault('timeout', 400 if self.tier == 'quick' else 3600)      # wall-clock watchdog per shard: firing is re-run once, then reported as a hang
         r = run_harness(exe, self.prop, self.seed, cases, tier=self.tier, label=label, **kw)
         self.results.append((label, r))
         log('[%s] %s: cases=%d evals=%d cov=%d viol=%d restarts=%d wall=%.1fs' % (self.prop, label, r.cases, r.evals, len(r.cov), len(r.violations), r.restarts, r.wall))
